@@ -85,6 +85,8 @@ Inductive micro :=
   | MWakerRelease (w : nat)
   | MWakeTake (w : nat) (wake : bool)
   | MLazyGet (k : nat)
+  | MLazyGetY (k : nat)                 (* a lazy static whose initialiser yields *)
+  | MLazyFinishY (k ci : nat)
   | MBlockOnS (a : nat) (v : N) (b1 b2 : nat)
   | MBsPoll (a : nat) (v : N) (b1 b2 n k : nat) (first : bool)
   | MBsLoad (a : nat) (v : N) (b1 b2 n k : nat) (first : bool)
